@@ -56,7 +56,17 @@ func c03Setup(ops []extOp) *c03State {
 	base := baseTree()
 	scratch := lib.Snapshot()
 	for _, op := range ops {
-		applyOp(op, scratch, base)
+		func() {
+			defer func() {
+				if e := recover(); e != nil {
+					if _, ok := e.(lostName); !ok {
+						panic(e)
+					}
+					// a lost name is C14's finding; C03 goes on with the tree as it is
+				}
+			}()
+			applyOp(op, scratch, base)
+		}()
 	}
 	st := &c03State{ops: ops}
 	st.t = lib.Snapshot() // ids in DFS pre-order, original (un-instrumented) detectors
@@ -101,6 +111,10 @@ func (st *c03State) judge(c *fw.Ctx, in []byte, limit, global uint32, entry stri
 		if entry == "VerifMatch" {
 			mimetype.SetLimit(global)
 			m = mimetype.VerifMatch(in, limit)
+		} else if entry == "DetectReader" {
+			mimetype.SetLimit(limit)
+			m, _ = mimetype.DetectReader(&oddChunks{b: in})
+			hdr = lib.Header(in, limit)
 		} else {
 			mimetype.SetLimit(limit)
 			m = mimetype.Detect(in)
@@ -144,7 +158,7 @@ func (st *c03State) judge(c *fw.Ctx, in []byte, limit, global uint32, entry stri
 			bad("trace-order", fmt.Sprintf("detector call #%d consulted %s%s but the first-match depth-first walk expects %s", i, t.Nodes[e.id].MIME, t.Nodes[e.id].Ext, exp))
 			return
 		}
-		if e.n != len(hdr) || e.limit != limit || (len(hdr) > 0 && e.ptr != wantPtr) {
+		if e.n != len(hdr) || e.limit != limit || (len(hdr) > 0 && e.ptr != wantPtr && entry != "DetectReader") || (entry == "DetectReader" && e.ptr != st.trace[0].ptr) {
 			bad("trace-args", fmt.Sprintf("detector %s%s was given (len %d, limit %d, same buffer %v) but the walk examines (len %d, limit %d)", t.Nodes[e.id].MIME, t.Nodes[e.id].Ext, e.n, e.limit, e.ptr == wantPtr, len(hdr), limit))
 			return
 		}
@@ -508,7 +522,9 @@ func c03Run(c *fw.Ctx, b fw.Batch) {
 				limit = 3072
 			}
 			entry, global := "Detect", limit
-			if r.Intn(4) == 0 {
+			if r.Intn(9) == 0 && limit < 1<<20 {
+				entry = "DetectReader" // the reader path: the walk must examine exactly min(len, limit) bytes (whatever limit came before)
+			} else if r.Intn(4) == 0 {
 				entry = "VerifMatch"
 				global = []uint32{0, 1, 3072, limit + 1, 77}[r.Intn(5)]
 			}
